@@ -38,11 +38,11 @@ ClausesOf(e) ==
 \* (bit identity with the amount type's own arithmetic is the business of the 'ref' clauses)
 SameValue(x, y) == IsFin(x) /\ IsFin(y) /\ XEq(x, y)
 OutSame(o1, o2) ==
-    IF Ok(o1) THEN Ok(o2) /\ (IF Has(o1.ok, "u") THEN o1.ok.u = o2.ok.u /\ SameValue(o1.ok.a, o2.ok.a)
-                              ELSE IF Has(o1.ok, "a") THEN SameValue(o1.ok.a, o2.ok.a)
+    IF Ok(o1) THEN Ok(o2) /\ (IF Has(o1.ok, "u") THEN Has(o2.ok, "u") /\ o1.ok.u = o2.ok.u /\ SameValue(o1.ok.a, o2.ok.a)
+                              ELSE IF Has(o1.ok, "a") THEN Has(o2.ok, "a") /\ ~Has(o2.ok, "u") /\ SameValue(o1.ok.a, o2.ok.a)
                               ELSE IF Has(o1.ok, "none") THEN Has(o2.ok, "none")
-                              ELSE IF Has(o1.ok, "unit") THEN o1.ok.unit = o2.ok.unit /\ o1.ok.qty = o2.ok.qty
-                              ELSE SameValue(o1.ok, o2.ok))
+                              ELSE IF Has(o1.ok, "unit") THEN Has(o2.ok, "unit") /\ o1.ok.unit = o2.ok.unit /\ o1.ok.qty = o2.ok.qty
+                              ELSE Has(o2.ok, "k") /\ Has(o1.ok, "k") /\ SameValue(o1.ok, o2.ok))
     ELSE ~Ok(o2)
 CmpOutSame(o1, o2) == IF Ok(o1) THEN Ok(o2) /\ SameCmp(o1.ok, o2.ok) ELSE ~Ok(o2)
 ModelPrefix(e) ==
